@@ -35,9 +35,9 @@ NAMES = ["net", "net2", "net2b", "opt"]  # component keys that are prefixes of o
 
 
 def _mk(i):
-    params = ", ".join(f"p{j}: Any = None" for j in range(N))
+    params = ", ".join(f"p{j}: Any = 'unset'" for j in range(N))  # (a default that differs from None: a None that was passed on purpose stays visible)
     src = (f"class K{i}:\n    def __init__(self, {params}):\n        LOG.append(('K{i}', dict({', '.join(f'p{j}=p{j}' for j in range(N))})))\n"
-           + "".join(f"        self.p{j} = p{j}\n" for j in range(N)) + f"        self.tag = 'tag-of-K{i}'\n")
+           + "".join(f"        self.p{j} = p{j}\n" for j in range(N)) + f"        self.tag = 'tag-of-K{i}'\n        self.nothing = None\n")
     from typing import Any
 
     ns = {"Any": Any, "LOG": LOG}
@@ -162,8 +162,17 @@ def run_e2e(ctx, case):
             p.add_class_arguments(CLASSES[i], NAMES[i])
     cyc = kahn_cyclic(list(range(n)), edges)
     err = None
-    for (a, b), kd in zip(edges, kinds):
-        src = f"{NAMES[a]}.tag" if kd == "attr" else NAMES[a]
+    late = case.get("late", 0)  # this many links are added only after the parser has been used once (parse + instantiate)
+    for li, ((a, b), kd) in enumerate(zip(edges, kinds)):
+        if late and li == len(edges) - late and not cyc:
+            try:
+                del LOG[:]
+                p.instantiate_classes(p.parse_args([]))
+                ctx.cls("e2e:links-added-after-first-instantiation")
+            except Exception as ex:  # noqa
+                ctx.finding(f"C16/e2e/instantiation-raises:{type(ex).__name__}", {"error": fmt_exc(ex), "when": "before the late links", "edges": edges[:li]})
+                return
+        src = f"{NAMES[a]}.tag" if kd == "attr" else f"{NAMES[a]}.nothing" if kd == "attr_none" else NAMES[a]
         tgt = f"{NAMES[b]}.init_args.p{a}" if b in as_arg else f"{NAMES[b]}.p{a}"
         try:
             p.link_arguments(src, tgt, compute_fn=compute if kd == "fn" else None, apply_on="instantiate")
@@ -200,14 +209,15 @@ def run_e2e(ctx, case):
     for (a, b), kd in zip(edges, kinds):
         v = kw[f"K{b}"][f"p{a}"]
         src_obj = init[NAMES[a]]
-        ok = (v is src_obj) if kd == "obj" else (v == f"tag-of-K{a}") if kd == "attr" else (isinstance(v, tuple) and v[0] == "computed" and v[1] is src_obj)
+        ok = ((v is src_obj) if kd == "obj" else (v == f"tag-of-K{a}") if kd == "attr" else (v is None) if kd == "attr_none"
+              else (isinstance(v, tuple) and v[0] == "computed" and v[1] is src_obj))
         if not ok:
             ctx.finding(f"C16/e2e/linked-parameter-has-wrong-value/{kd}", {"edge": [a, b], "value": short(v, 100), "decl": decl, "as_arg": sorted(as_arg)})
             return
     # parameters that no link feeds keep their default
     for b in range(n):
         for a in range(n):
-            if (a, b) not in edges and kw[f"K{b}"][f"p{a}"] is not None:
+            if (a, b) not in edges and kw[f"K{b}"][f"p{a}"] != "unset":
                 ctx.finding("C16/e2e/unlinked-parameter-changed", {"class": b, "param": a, "value": short(kw[f'K{b}'][f'p{a}'], 100)})
                 return
 
@@ -226,9 +236,10 @@ def e2e_shard(ctx, part, of, n_cyclic):
             rnd = random.Random(derive_seed(getattr(ctx, "base_seed", 1), "e2e", gi, pi))
             eorder = list(edges)
             rnd.shuffle(eorder)
-            kinds = [rnd.choice(["obj", "obj", "attr", "fn"]) for _ in eorder]
+            kinds = [rnd.choice(["obj", "obj", "attr", "fn", "attr_none"]) for _ in eorder]
             as_arg = [i for i in range(N) if rnd.random() < 0.3]
-            case = {"kind": "e2e", "n": N, "edges": [list(e) for e in eorder], "decl": list(decl), "kinds": kinds, "as_arg": as_arg}
+            case = {"kind": "e2e", "n": N, "edges": [list(e) for e in eorder], "decl": list(decl), "kinds": kinds, "as_arg": as_arg,
+                    "late": rnd.choice([0, 0, 0, 1, 2]) if len(eorder) >= 2 else 0}
             ctx.begin(case)
             run_e2e(ctx, case)
             if len(edges) >= 2:
